@@ -1,0 +1,48 @@
+//go:build verif
+// +build verif
+
+package blocker
+
+import (
+	"time"
+
+	"github.com/gauss-project/aurorafs/pkg/boson"
+)
+
+// Verification hooks: only compiled with the build tag "verif".
+
+// VerifSetResolution sets the sequencer resolution used by Blockers created
+// afterwards and returns the previous one. Must not be called while a Blocker
+// is running (its ticker goroutine reads the variable).
+func VerifSetResolution(d time.Duration) (old time.Duration) {
+	old = sequencerResolution
+	sequencerResolution = d
+	return old
+}
+
+// VerifSequence reads the monotonic sequence.
+func (b *Blocker) VerifSequence() uint64 { return b.sequence.Load() }
+
+// VerifAdvance advances the sequence by n (what n ticks of the sequencer do
+// while the network is available) and returns the new value.
+func (b *Blocker) VerifAdvance(n uint64) uint64 { return b.sequence.Add(n) }
+
+// VerifSweep runs one blocking sweep synchronously (what the wake-up ticker does).
+func (b *Blocker) VerifSweep() { b.block() }
+
+// VerifFlag is one flagged peer and the sequence value after which it is blocked.
+type VerifFlag struct {
+	Address    boson.Address
+	BlockAfter uint64
+}
+
+// VerifFlagged lists the currently flagged peers.
+func (b *Blocker) VerifFlagged() []VerifFlag {
+	b.mu.Lock()
+	defer b.mu.Unlock()
+	out := make([]VerifFlag, 0, len(b.peers))
+	for _, p := range b.peers {
+		out = append(out, VerifFlag{Address: p.address, BlockAfter: p.blockAfter})
+	}
+	return out
+}
